@@ -132,6 +132,10 @@ class Sched:
         self.trace: list = []  # (step, thread idx) context switches
         self.aborting = False
 
+    def state_key(self, t: Any) -> Any:
+        """None = no state caching (thx). procx overrides this."""
+        return None
+
     # -- queries --------------------------------------------------------------------------------
     def me(self) -> _T | None:
         return self.by_ident.get(threading.get_ident())
@@ -180,7 +184,8 @@ class Sched:
             order = [t] + [x for x in en if x is not t]
         else:
             order = en
-        c = self.ch.choose(len(order), costly=running_enabled, kind="thread")
+        c = self.ch.choose(len(order), costly=running_enabled, kind="thread",
+                           state_key=self.state_key(t) if len(order) > 1 else None)
         nxt = order[c]
         if nxt is t:
             return
